@@ -160,7 +160,7 @@ func init() {
 	// long runs of stars and escapes; one event per real evaluation.
 	drivers["glob"] = func(seed int64, n int, emit func(any)) error {
 		rng := rand.New(rand.NewSource(seed))
-		atoms := []string{"a", "b", "c", "*", "*", "\\", "\\", "é", "日", "/", ".", " "}
+		atoms := []string{"a", "b", "c", "*", "*", "\\", "\\", "é", "日", "/", ".", " ", "\xe8", "\xe9", "\xff", "\xc3", "\ufffd"} // incl. bytes that are not valid UTF-8
 		gen := func(max int) string {
 			k := rng.Intn(max + 1)
 			s := ""
